@@ -196,6 +196,9 @@ func runRibHistory(c *h.Ctx, id string, seed int64, algo string, prop string) {
 		switch k := r.Intn(10); {
 		case k < 6:
 			op.Op, op.Cost, op.Flags = "register", costs[r.Intn(len(costs))], uint64(r.Intn(4))
+			if r.Intn(10) == 0 {
+				op.Flags |= 4 << uint(r.Intn(3)) // a flag bit the forwarder does not define (management passes Flags through): child-inherit and capture keep their meaning
+			}
 			shape := ribShape(ref, name, op.Op)
 			hist = append(hist, op)
 			pi = h.Guard(func() {
